@@ -19,6 +19,7 @@ CONSTANTS
   Weak_LatestUnverifiedWhenUpToDate = FALSE
   Weak_BackwardsCommitUnverified = FALSE
   CommitBlockIDValidated = FALSE
+  Weak_EvidenceBoundByIdOnly = FALSE
   Weak_SearchProofFromCachedBlock = FALSE
 INIT CaseInit
 NEXT CaseNext
